@@ -735,6 +735,8 @@ type c08Alt struct {
 	Facts  map[string]string // what is known about the statement (rendered STMT) when it was cloned / remembered
 	Dyn    []c08Dyn          // facts still pending: answers of a function-typed parameter of the current frame
 	Site   string
+	S      *c08Stmt      // the statement itself and the frame it lives in (set by stmtAlt; nil once moved out of that frame)
+	SFn    *ssa.Function //
 }
 
 // c08Dyn: parameter #Param (a predicate) of the current frame, applied to the statement, answered Truth.
@@ -756,7 +758,7 @@ func newC08Resolver(w *World) *c08Resolver {
 func (r *c08Resolver) stmtAlt(fn *ssa.Function, S *c08Stmt, at *ssa.BasicBlock) c08Alt {
 	w := r.w
 	r.frames[fn] = true
-	alt := c08Alt{Doc: desc(S.Slice), Facts: map[string]string{}, Site: w.Info(fn).blockPos(at)}
+	alt := c08Alt{Doc: desc(S.Slice), Facts: map[string]string{}, Site: w.Info(fn).blockPos(at), S: S, SFn: fn}
 	// facts are matched by the rendering of the statement: a second local variable that renders alike (a shadowing
 	// variable of the same name and type) would make a fact about one pass for a fact about the other
 	names := []string{S.D}
@@ -2287,4 +2289,675 @@ func c08LitFields(v ssa.Value) (map[string]string, bool) {
 		}
 	}
 	return out, true
+}
+
+// ---- completeness of the exact selection ----------------------------------------------------------------------------------
+//
+// oci/selection-predicate says under which test a statement may become the exact candidate ("only if"); it is satisfied
+// as well by a test that got an extra conjunct (`len(st.RegistryScopes) > 1 && slices.Contains(...)`,
+// `wildcard == nil && slices.Contains(...)`, `false && ...`): the statement that lists the repository is then passed
+// over, and — the search having found no exact statement — the WILDCARD statement is applied to an artifact that has a
+// statement of its own. That is not a refusal but the wrong statement (the property: "the statement applied is the
+// unique statement whose registry scopes contain exactly that registry/repository string; failing that, the unique
+// wildcard statement"). c08SelectionComplete states the other direction ("if") as a cut set over one iteration of the
+// statement loop:
+//
+//	remove (a) the edges on which a value is assigned to the exact candidate (followed through the variables — phis —
+//	that merge it inside the iteration), and (b) the branch edges that are decided by the statement's registryScopes
+//	against it: the repository path is not a member, '*' is a member (a statement with '*' lists nothing else: it is
+//	the wildcard statement), or the candidate is already set (the scopes of a valid document are unique, so "first
+//	match" and "last match" are the same statement); then the next iteration must be unreachable from the start of the
+//	iteration.
+//
+// Which edges are of kind (b) is decided on values, not on spelling: for a condition tested directly, by the facts the
+// engine composes for the edge (slices.Contains, slices.Index, a boolean module helper) — the edge behind which the
+// path IS a member is never one — and otherwise by what the condition is computed from (c08Pure): nothing but
+// comparisons of the statement's registryScopes / their elements with the repository path and '*', directly, in a
+// module function or closure handed exactly these, or accumulated in a flag / an enumeration answer; and the
+// repository path must take part. For a value tested against a constant (the answer of a classifier, a flag) the edge
+// `x == k` / `x != k` is of kind (b) if every answer that remains possible behind it is one (the declared constants
+// of the answer's type; what is known when x is k': c08ValueIsFacts). `len(scopes)` (other than against 0), a constant
+// condition, another field of the statement, another variable are not such decisions: an iteration that can pass
+// them without assigning is reported.
+type c08Cls int
+
+const (
+	c08Foreign c08Cls = iota
+	c08KConst
+	c08KWild
+	c08KPath
+	c08KStmt
+	c08KScopes
+	c08KElem
+)
+
+// c08Env: a frame in which values are classified: the scanning function (root: by what the value denotes there) or a
+// module function / closure called from it (parameters and captured variables by what was handed in).
+type c08Env struct {
+	fn     *ssa.Function
+	root   *c08Complete
+	params map[*ssa.Parameter]c08Cls
+	free   map[*ssa.FreeVar]c08Cls
+}
+
+type c08Complete struct {
+	w        *World
+	scan     *c08Scan
+	S        *c08Stmt
+	p        *ssa.Phi
+	exactArg string
+	wild     string
+	lb       map[int]bool
+	busy     map[*ssa.Function]bool
+}
+
+func (e *c08Env) classify(v ssa.Value, depth int) c08Cls {
+	if depth > 8 {
+		return c08Foreign
+	}
+	K := e.root
+	if k, ok := v.(*ssa.Const); ok {
+		if desc(k) == K.wild {
+			return c08KWild
+		}
+		return c08KConst
+	}
+	if e.params == nil {
+		// the scanning frame
+		if K.scan.lift(desc(v)) == K.exactArg {
+			return c08KPath
+		}
+		if S := c08StmtOf(e.fn, v); S != nil && S.Slice != nil && desc(S.Slice) == desc(K.scan.Loop.X) {
+			return c08KStmt
+		}
+	}
+	switch x := v.(type) {
+	case *ssa.Parameter:
+		if e.params != nil {
+			return e.params[x]
+		}
+	case *ssa.FreeVar:
+		return e.free[x]
+	case *ssa.ChangeType:
+		return e.classify(x.X, depth+1)
+	case *ssa.Alloc:
+		// a local variable assigned once: what it holds (pointer and value are not told apart)
+		if st := c08WholeStore(x); st != nil {
+			return e.classify(st.Val, depth+1)
+		}
+	case *ssa.FieldAddr:
+		if e.classify(x.X, depth+1) == c08KStmt && fieldName(x.X.Type(), x.Field) == "RegistryScopes" {
+			return c08KScopes
+		}
+	case *ssa.Field:
+		if e.classify(x.X, depth+1) == c08KStmt && fieldName(x.X.Type(), x.Field) == "RegistryScopes" {
+			return c08KScopes
+		}
+	case *ssa.IndexAddr:
+		switch e.classify(x.X, depth+1) {
+		case c08KScopes:
+			return c08KElem
+		}
+	case *ssa.UnOp:
+		if x.Op == token.MUL {
+			return e.classify(x.X, depth+1)
+		}
+	case *ssa.Phi:
+		cls := c08Foreign
+		for i, ed := range x.Edges {
+			if ed == ssa.Value(x) {
+				continue
+			}
+			c := e.classify(ed, depth+1)
+			if i > 0 && c != cls && cls != c08Foreign {
+				return c08Foreign
+			}
+			cls = c
+		}
+		if cls == c08KConst || cls == c08KWild {
+			return c08Foreign // a variable that holds constants: what matters is what decides between them (pure)
+		}
+		return cls
+	}
+	return c08Foreign
+}
+
+func c08IsLen(v ssa.Value) (ssa.Value, bool) {
+	call, ok := v.(*ssa.Call)
+	if !ok {
+		return nil, false
+	}
+	if b, isB := call.Call.Value.(*ssa.Builtin); isB && b.Name() == "len" && len(call.Call.Args) == 1 {
+		return call.Call.Args[0], true
+	}
+	return nil, false
+}
+
+// pure: v is computed from nothing but comparisons of the statement's registryScopes (or their elements) with the
+// repository path and '*' (and constants); path: the repository path takes part.
+func (e *c08Env) pure(v ssa.Value, depth int, seen map[ssa.Value]bool) (ok, path bool) {
+	if depth > 10 {
+		return false, false
+	}
+	switch e.classify(v, 0) {
+	case c08KPath:
+		return true, true
+	case c08KConst, c08KWild, c08KStmt, c08KScopes, c08KElem:
+		return true, false
+	}
+	if seen[v] {
+		return true, false
+	}
+	seen[v] = true
+	switch x := v.(type) {
+	case *ssa.UnOp:
+		if x.Op == token.NOT {
+			return e.pure(x.X, depth+1, seen)
+		}
+	case *ssa.ChangeType:
+		return e.pure(x.X, depth+1, seen)
+	case *ssa.BinOp:
+		switch x.Op {
+		case token.EQL, token.NEQ, token.LSS, token.LEQ, token.GTR, token.GEQ:
+		default:
+			return false, false
+		}
+		for _, pair := range [][2]ssa.Value{{x.X, x.Y}, {x.Y, x.X}} {
+			if arg, isLen := c08IsLen(pair[0]); isLen {
+				// emptiness of the scopes (nothing is a member of an empty list); the bound of a loop over them
+				if e.classify(arg, 0) != c08KScopes {
+					return false, false
+				}
+				if k, isK := pair[1].(*ssa.Const); isK && k.Value != nil && k.Value.Kind() == constant.Int {
+					if n, exact := constant.Int64Val(k.Value); exact && n == 0 {
+						return true, false
+					}
+					return false, false
+				}
+				if c08LoopCounter(pair[1]) {
+					return true, false
+				}
+				return false, false
+			}
+		}
+		ok1, p1 := e.pure(x.X, depth+1, seen)
+		ok2, p2 := e.pure(x.Y, depth+1, seen)
+		return ok1 && ok2, p1 || p2
+	case *ssa.Extract:
+		return e.pure(x.Tuple, depth+1, seen)
+	case *ssa.Phi:
+		okAll, anyPath := true, false
+		for _, ed := range x.Edges {
+			o, p := e.pure(ed, depth+1, seen)
+			okAll = okAll && o
+			anyPath = anyPath || p
+		}
+		if !okAll {
+			return false, false
+		}
+		// what decides which assignment was executed last: in a called frame every test is examined anyway (callPure);
+		// in the scanning frame, the tests of this iteration from which the variable's block is reached
+		if e.params == nil {
+			o, p := e.controllersPure(x.Block(), depth+1, seen)
+			if !o {
+				return false, false
+			}
+			anyPath = anyPath || p
+		}
+		return true, anyPath
+	case *ssa.Call:
+		return e.callPure(x, depth+1, seen)
+	}
+	return false, false
+}
+
+// c08LoopCounter: v is a loop counter or a value derived from one by adding a constant (the range loop's index).
+func c08LoopCounter(v ssa.Value) bool {
+	for i := 0; i < 3; i++ {
+		switch x := v.(type) {
+		case *ssa.Phi:
+			return c08IsInduction(x)
+		case *ssa.BinOp:
+			if x.Op != token.ADD && x.Op != token.SUB {
+				return false
+			}
+			v = x.X
+		default:
+			return false
+		}
+	}
+	return false
+}
+
+// controllersPure (scanning frame): every test of the iteration from which block `at` can be reached without starting
+// another iteration is pure (tests of the candidates themselves and of loop bounds aside).
+func (e *c08Env) controllersPure(at *ssa.BasicBlock, depth int, seen map[ssa.Value]bool) (ok, path bool) {
+	K := e.root
+	hdr := K.scan.Loop.Header
+	// blocks of the loop body from which `at` is reached without passing the header
+	reach := map[int]bool{at.Index: true}
+	work := []*ssa.BasicBlock{at}
+	for len(work) > 0 {
+		b := work[len(work)-1]
+		work = work[:len(work)-1]
+		for _, p := range b.Preds {
+			if p == hdr || !K.lb[p.Index] || reach[p.Index] {
+				continue
+			}
+			reach[p.Index] = true
+			work = append(work, p)
+		}
+	}
+	ok = true
+	for bi := range reach {
+		b := e.fn.Blocks[bi]
+		iff, isIf := blockTerm(b).(*ssa.If)
+		if !isIf {
+			continue
+		}
+		o, p := e.pure(iff.Cond, depth+1, seen)
+		if !o {
+			return false, false
+		}
+		path = path || p
+	}
+	return ok, path
+}
+
+// callPure: the answer of slices.Contains / slices.Index over pure arguments, or of a module function / closure that is
+// handed nothing but the statement, its scopes, the repository path, '*' and constants, and in which every test and
+// every value returned is pure in turn.
+func (e *c08Env) callPure(call *ssa.Call, depth int, seen map[ssa.Value]bool) (ok, path bool) {
+	K := e.root
+	if depth > 10 {
+		return false, false
+	}
+	name := calleeName(call)
+	if call.Call.IsInvoke() {
+		return false, false
+	}
+	argsOK := true
+	var classes []c08Cls
+	for _, a := range call.Call.Args {
+		cl := e.classify(a, 0)
+		if cl == c08Foreign {
+			argsOK = false
+		}
+		if cl == c08KPath {
+			path = true
+		}
+		classes = append(classes, cl)
+	}
+	if name == "slices.Contains" || name == "slices.Index" {
+		return argsOK && len(classes) == 2 && (classes[0] == c08KScopes) && (classes[1] == c08KPath || classes[1] == c08KWild), path
+	}
+	g := staticCallee(call)
+	if g == nil || g.Blocks == nil || !K.w.IsProductFn(g) || !argsOK || len(classes) != len(g.Params) || K.busy[g] {
+		return false, false
+	}
+	child := &c08Env{fn: g, root: K, params: map[*ssa.Parameter]c08Cls{}, free: map[*ssa.FreeVar]c08Cls{}}
+	for i, p := range g.Params {
+		child.params[p] = classes[i]
+	}
+	if mc, isClosure := call.Call.Value.(*ssa.MakeClosure); isClosure {
+		for i, b := range mc.Bindings {
+			if i >= len(g.FreeVars) {
+				return false, false
+			}
+			cl := e.classify(b, 0)
+			if cl == c08Foreign {
+				return false, false
+			}
+			if cl == c08KPath {
+				path = true
+			}
+			child.free[g.FreeVars[i]] = cl
+		}
+	} else if len(g.FreeVars) > 0 {
+		return false, false
+	}
+	K.busy[g] = true
+	defer delete(K.busy, g)
+	cseen := map[ssa.Value]bool{}
+	for _, b := range g.Blocks {
+		switch t := blockTerm(b).(type) {
+		case *ssa.If:
+			if o, _ := child.pure(t.Cond, depth+1, cseen); !o {
+				return false, false
+			}
+		case *ssa.Return:
+			for _, r := range t.Results {
+				if o, _ := child.pure(r, depth+1, cseen); !o {
+					return false, false
+				}
+			}
+		case *ssa.Panic:
+			return false, false
+		}
+	}
+	return true, path
+}
+
+// c08Enumerable: the answers of this type can be enumerated (a value of another type compared with a constant — the
+// position slices.Index answers with — is judged as a condition tested directly).
+func c08Enumerable(t types.Type) bool {
+	_, ok := c08DeclaredConsts(t)
+	return ok
+}
+
+// c08DeclaredConsts: the constants an answer of type t can be: true / false, or the constants declared with a named
+// type in its package. ok=false: not enumerable.
+func c08DeclaredConsts(t types.Type) ([]constant.Value, bool) {
+	if bt, isB := t.Underlying().(*types.Basic); isB && bt.Info()&types.IsBoolean != 0 {
+		return []constant.Value{constant.MakeBool(true), constant.MakeBool(false)}, true
+	}
+	nt, isNamed := t.(*types.Named)
+	if !isNamed || nt.Obj() == nil || nt.Obj().Pkg() == nil {
+		return nil, false
+	}
+	var out []constant.Value
+	sc := nt.Obj().Pkg().Scope()
+	for _, n := range sc.Names() {
+		if k, isK := sc.Lookup(n).(*types.Const); isK && types.Identical(k.Type(), t) {
+			dup := false
+			for _, o := range out {
+				if constant.Compare(o, token.EQL, k.Val()) {
+					dup = true
+				}
+			}
+			if !dup {
+				out = append(out, k.Val())
+			}
+		}
+	}
+	return out, len(out) > 0
+}
+
+// judge: what a set of facts about the statement says: "accept" (the repository path is a member), "reject" ('*' is a
+// member), "" (nothing of the kind).
+func (K *c08Complete) judge(facts map[string]string) string {
+	ren := map[string]string{}
+	names := []string{K.S.D}
+	for _, k := range K.S.Kept {
+		names = append(names, k.D)
+	}
+	for l, s := range facts {
+		for _, d := range names {
+			l = strings.ReplaceAll(l, d, c08STMT)
+		}
+		ren[l] = s
+	}
+	verdict := ""
+	for _, a := range c08Membership(ren) {
+		switch K.scan.lift(a) {
+		case K.exactArg:
+			return "accept"
+		case K.wild:
+			verdict = "reject"
+		}
+	}
+	return verdict
+}
+
+// rejecting: the edge of block b on which its condition evaluates to truth is decided by the statement's registryScopes
+// against the statement (kind (b) above).
+func (K *c08Complete) rejecting(env *c08Env, b *ssa.BasicBlock, iff *ssa.If, truth bool) bool {
+	w := K.w
+	LF := K.scan.Fn
+	cond := iff.Cond
+	// the candidate is already set
+	{
+		c, eq := cond, true
+		for {
+			u, isNot := c.(*ssa.UnOp)
+			if !isNot || u.Op != token.NOT {
+				break
+			}
+			c, eq = u.X, !eq
+		}
+		if bo, isB := c.(*ssa.BinOp); isB && (bo.Op == token.EQL || bo.Op == token.NEQ) {
+			x, y := bo.X, bo.Y
+			if _, isK := x.(*ssa.Const); isK {
+				x, y = y, x
+			}
+			if _, isK := y.(*ssa.Const); isK && x == ssa.Value(K.p) {
+				return (eq == (bo.Op == token.EQL)) != truth
+			}
+		}
+	}
+	// the scopes are empty: nothing is a member
+	if emptyOn, isEmptiness := env.emptinessTest(cond); isEmptiness {
+		return emptyOn == truth
+	}
+	if hx, _, _, _ := c08HeldTest(cond); c08TestsHeldValue(cond) && c08Enumerable(hx.Type()) {
+		x, k, eq, _ := c08HeldTest(cond)
+		var remain []constant.Value
+		if eq == truth {
+			remain = []constant.Value{k}
+		} else {
+			all, ok := c08DeclaredConsts(x.Type())
+			if !ok {
+				return false
+			}
+			for _, k2 := range all {
+				if !constant.Compare(k2, token.EQL, k) {
+					remain = append(remain, k2)
+				}
+			}
+		}
+		// what each answer says; an answer about which nothing is known counts as "the path is not a member" only if the
+		// value decides about the path at all (another of its answers is "the path is a member") and is computed from
+		// nothing but such comparisons
+		all, enumerable := c08DeclaredConsts(x.Type())
+		decidesPath := false
+		if enumerable {
+			for _, k2 := range all {
+				if facts, understood := c08ValueIsFacts(w, LF, K.S.Birth, x, b, k2, false, 0); !(understood && facts == nil) && K.judge(facts) == "accept" {
+					decidesPath = true
+				}
+			}
+		}
+		pureKnown, pureOK := false, false
+		for _, k2 := range remain {
+			facts, understood := c08ValueIsFacts(w, LF, K.S.Birth, x, b, k2, false, 0)
+			if understood && facts == nil {
+				continue // never this answer
+			}
+			switch K.judge(facts) {
+			case "accept":
+				return false
+			case "reject":
+				continue
+			}
+			if !decidesPath {
+				return false
+			}
+			if !pureKnown {
+				o, _ := env.pure(x, 0, map[ssa.Value]bool{})
+				pureKnown, pureOK = true, o
+			}
+			if !pureOK {
+				return false
+			}
+		}
+		return true
+	}
+	switch K.judge(K.edgeFacts(cond, truth)) {
+	case "accept":
+		return false
+	case "reject":
+		return true
+	}
+	// nothing known on this edge: it says "the path is not a member" if the other edge says that it is, and the
+	// condition is computed from nothing but such comparisons
+	if K.judge(K.edgeFacts(cond, !truth)) != "accept" {
+		return false
+	}
+	o, _ := env.pure(cond, 0, map[ssa.Value]bool{})
+	return o
+}
+
+// edgeFacts: the label of the edge on which cond evaluates to truth and what the engine composes for it.
+func (K *c08Complete) edgeFacts(cond ssa.Value, truth bool) map[string]string {
+	fi := K.w.Info(K.scan.Fn)
+	facts := map[string]string{}
+	l := condLabel(cond, truth)
+	facts[l] = ""
+	if tw, ok := labelTwin(l); ok {
+		facts[tw] = ""
+	}
+	if comp := fi.composeCond(cond, truth); comp != nil {
+		for l2 := range comp.Checked {
+			facts[l2] = ""
+		}
+	}
+	return facts
+}
+
+// emptinessTest: cond compares len(the statement's registryScopes) with 0; emptyOn: the truth value of cond for which
+// the scopes are empty.
+func (e *c08Env) emptinessTest(cond ssa.Value) (emptyOn, ok bool) {
+	neg := false
+	for {
+		u, isNot := cond.(*ssa.UnOp)
+		if !isNot || u.Op != token.NOT {
+			break
+		}
+		cond, neg = u.X, !neg
+	}
+	bo, isB := cond.(*ssa.BinOp)
+	if !isB {
+		return false, false
+	}
+	op, x, y := bo.Op, bo.X, bo.Y
+	if _, isLen := c08IsLen(y); isLen {
+		x, y = y, x
+		switch op {
+		case token.LSS:
+			op = token.GTR
+		case token.GTR:
+			op = token.LSS
+		case token.LEQ:
+			op = token.GEQ
+		case token.GEQ:
+			op = token.LEQ
+		}
+	}
+	arg, isLen := c08IsLen(x)
+	k, isK := y.(*ssa.Const)
+	if !isLen || !isK || k.Value == nil || k.Value.Kind() != constant.Int || e.classify(arg, 0) != c08KScopes {
+		return false, false
+	}
+	if n, exact := constant.Int64Val(k.Value); !exact || n != 0 {
+		return false, false
+	}
+	switch op {
+	case token.EQL, token.LEQ:
+		return !neg, true
+	case token.NEQ, token.GTR:
+		return neg, true
+	}
+	return false, false
+}
+
+func c08SelectionComplete(c *Ctx, scan *c08Scan, exactPhi *ssa.Phi, S *c08Stmt, exactArg, wild string) {
+	w := c.W
+	rule := "must-pass (cut set): an iteration of the statement loop leaves the exact candidate as it was only past a branch decided by that statement's own registryScopes — the repository path is not a member, or '*' is (or the candidate is already set: the scopes of a valid document are unique); a statement that lists the repository path is never passed over in favour of the wildcard statement"
+	LF, loop := scan.Fn, &scan.Loop
+	site := w.InstrPos(blockTerm(loop.Header))
+	if exactPhi == nil || S == nil || exactArg == "" {
+		c.Unk("oci/selection-complete", rule, site, "the exact candidate and the statement it is assigned from were not identified in the scanning function")
+		return
+	}
+	K := &c08Complete{w: w, scan: scan, S: S, p: exactPhi, exactArg: exactArg, wild: wild, lb: loopBlocks(loop.Header), busy: map[*ssa.Function]bool{}}
+	env := &c08Env{fn: LF, root: K}
+	cut := map[edgeKey]bool{}
+	succIdx := func(from, to *ssa.BasicBlock) []int {
+		var out []int
+		for j, s := range from.Succs {
+			if s == to {
+				out = append(out, j)
+			}
+		}
+		return out
+	}
+	// (a) the edges on which the candidate is assigned
+	nAssign := 0
+	web := map[*ssa.Phi]bool{}
+	var follow func(q *ssa.Phi)
+	follow = func(q *ssa.Phi) {
+		if web[q] {
+			return
+		}
+		web[q] = true
+		for i, ed := range q.Edges {
+			pred := q.Block().Preds[i]
+			if !K.lb[pred.Index] {
+				continue // the initial value (the header's edge from before the loop)
+			}
+			if ed == ssa.Value(exactPhi) {
+				continue
+			}
+			if q2, isPhi := ed.(*ssa.Phi); isPhi && K.lb[q2.Block().Index] && q2.Block() != loop.Header {
+				follow(q2)
+				continue
+			}
+			nAssign++
+			for _, j := range succIdx(pred, q.Block()) {
+				cut[edgeKey{pred.Index, j}] = true
+			}
+		}
+	}
+	follow(exactPhi)
+	// (b) the edges decided by the registryScopes against the statement
+	nReject := 0
+	for bi := range K.lb {
+		b := LF.Blocks[bi]
+		iff, isIf := blockTerm(b).(*ssa.If)
+		if !isIf || b == loop.Header || len(b.Succs) != 2 {
+			continue
+		}
+		for j := 0; j < 2; j++ {
+			c.Evals++
+			if !cut[edgeKey{b.Index, j}] && K.rejecting(env, b, iff, j == 0) {
+				cut[edgeKey{b.Index, j}] = true
+				nReject++
+			}
+		}
+	}
+	// the next iteration must be unreachable
+	prev := map[int]int{loop.Body.Index: -1}
+	work := []*ssa.BasicBlock{loop.Body}
+	found := false
+	for len(work) > 0 && !found {
+		b := work[0]
+		work = work[1:]
+		for j, s := range b.Succs {
+			if cut[edgeKey{b.Index, j}] || !K.lb[s.Index] {
+				continue
+			}
+			if s == loop.Header {
+				prev[-1] = b.Index
+				found = true
+				break
+			}
+			if _, seen := prev[s.Index]; !seen {
+				prev[s.Index] = b.Index
+				work = append(work, s)
+			}
+		}
+	}
+	detail := ""
+	if found {
+		var tests []string
+		fi := w.Info(LF)
+		for at, nxt := prev[-1], loop.Header.Index; at >= 0; at, nxt = prev[at], at {
+			b := LF.Blocks[at]
+			if iff, isIf := blockTerm(b).(*ssa.If); isIf && len(b.Succs) == 2 {
+				tests = append([]string{trunc(condLabel(iff.Cond, b.Succs[0].Index == nxt), 120) + " at " + fi.blockPos(b)}, tests...)
+			}
+		}
+		detail = "an iteration can leave the exact candidate unchanged although nothing on its way says that the repository path is not among the statement's registryScopes; tests passed: " + strings.Join(tests, "; ")
+	}
+	c.Check(!found && nAssign > 0 && nReject > 0, "oci/selection-complete", rule, site, detail+" (assignments="+strconv.Itoa(nAssign)+", deciding edges="+strconv.Itoa(nReject)+")")
 }
